@@ -21,6 +21,7 @@ import ConduitModel.Driver.SrcAck
 import ConduitModel.Driver.Stream
 import ConduitModel.Driver.WorkerStop
 import ConduitModel.Driver.SharedSink
+import ConduitModel.Driver.FlushBatch
 
 /-
 `driver <component>` : reads cases from stdin (one per line), writes one result line per case.
@@ -73,6 +74,7 @@ def component (name : String) : Option (String → String) :=
   | "appendtoend" => some TreeBuildD.appendtoendLine
   | "sharedsink" => some SharedSinkD.sharedsinkLine
   | "rebuild" => some RebuildD.rebuildLine
+  | "srcbatch" => some FlushBatchD.srcbatchLine
   | _ => none
 
 partial def loop (h : IO.FS.Stream) (out : IO.FS.Stream) (f : String → String) : IO Unit := do
